@@ -287,6 +287,11 @@ def boundary_requests(run, antimeridian_cells=None, frame_cells=None):
         # finely subdivided that neighbouring ring points fall inside the projection's corner snap (5e5 segments per edge)
         for c in rng.sample(frame_cells, min(2, len(frame_cells))):
             out.append((f"digest cell_to_boundary {c} {rng.randint(0, 1)} 500000", (5 * 500000 + 1, None, None)))
+    if not run.quick:
+        # the longest rings explored: 4e6 segments per edge on a coarse cell (2e7 points), and 3.6e6 on a cell across the antimeridian
+        out.append((f"digest cell_to_boundary {gen.rand_cell(rng, rng.randint(2, 4))} {rng.randint(0, 1)} 4000000", (5 * 4000000 + 1, None, None)))
+        if antimeridian_cells:
+            out.append((f"digest cell_to_boundary {rng.choice(antimeridian_cells)} {rng.randint(0, 1)} 3600000", (5 * 3600000 + 1, None, "nonpolar")))
     if antimeridian_cells:
         # rings of more than 2^20 points on cells that cross the antimeridian (the unwrapping must act on the ring as a whole)
         for n in ([262144] if run.quick else [209716, 262144, 524288]):
